@@ -6,6 +6,7 @@ import (
 
 	"google.golang.org/protobuf/proto"
 	"google.golang.org/protobuf/reflect/protoreflect"
+	"google.golang.org/protobuf/reflect/protoregistry"
 	"google.golang.org/protobuf/types/dynamicpb"
 	"google.golang.org/protobuf/verif/core"
 	"google.golang.org/protobuf/verif/gen"
@@ -234,3 +235,5 @@ func valDiff(here string, a, b model.Val) string {
 	}
 	return ""
 }
+
+func nil2global() *protoregistry.Types { return protoregistry.GlobalTypes }
